@@ -277,8 +277,23 @@ impl Suite for Prog {
             rich_values: idx % 3 == 0,
             leak_enters: idx % 4 == 1,
         };
-        let prog = program::gen_program(rng, &cfg);
+        let mut prog = program::gen_program(rng, &cfg);
         let mut lines = vec![];
+        if idx % 6 == 3 {
+            // the events are handed to the receiver as they are (same process, no serialization),
+            // so values JSON cannot carry are fair game: NaN, the infinities
+            lines.push("direct 1".into());
+            for op in &mut prog.ops {
+                if let POp::New { vals, .. } | POp::Rec { vals, .. } | POp::Evt { vals, .. } = op {
+                    for (_, tok) in vals.iter_mut() {
+                        let is_float = tok.starts_with("f64:") || tok.starts_with("f32:");
+                        if (is_float && rng.chance(1, 2)) || (tok != "empty" && rng.chance(1, 12)) {
+                            *tok = (*rng.pick(&["f64:7ff8000000000000", "f64:7ff0000000000000", "f64:fff0000000000000", "f32:7f800000", "f32:ffc00000", "f32:ff800000"])).to_owned();
+                        }
+                    }
+                }
+            }
+        }
         if focus == "C12" && idx % 10 == 3 {
             lines.push(format!("threads {} {}", rng.range(2, 16), rng.range(5, 200)));
         }
@@ -305,6 +320,7 @@ impl Suite for Prog {
         let mut max_level: Option<u8> = None;
         let mut start: Option<u32> = None;
         let mut prehost: Option<u8> = None;
+        let direct = rest.iter().any(|l| l == "direct 1");
         for l in &rest {
             let mut t = Toks::new(l);
             match t.next() {
@@ -361,7 +377,7 @@ impl Suite for Prog {
             out.obs.push(format!("s {}", e.tok()));
         }
         // ---- tunnelled
-        let json: Vec<String> = events.iter().map(|e| serde_json::to_string(e).unwrap()).collect();
+        let json: Vec<String> = if direct { vec![] } else { events.iter().map(|e| serde_json::to_string(e).unwrap()).collect() };
         let host = StrictHost::new(max_level);
         let hd = Dispatch::new(host.clone());
         let mut results = vec![];
@@ -370,6 +386,11 @@ impl Suite for Prog {
             for j in &json {
                 let e: TracingEvent = serde_json::from_str(j).expect("event decodes");
                 results.push(recv.try_receive(e).is_ok());
+            }
+            if direct {
+                for e in events.iter().cloned() {
+                    results.push(recv.try_receive(e).is_ok());
+                }
             }
             recv
         });
